@@ -1,27 +1,46 @@
-"""dev helper: verify given contracts in-process and print obligations"""
-import sys, time, importlib
+"""dev helper: verify given contracts (one process per variant) and print grouped results"""
+import sys, time, importlib, collections, multiprocessing as mp
 sys.path.insert(0, '/verif')
 from pyvc import driver
 from pyvc.contracts import REG
 for m in sys.argv[1].split(','):
     importlib.import_module('contracts.' + m)
-quals = [x for x in sys.argv[2:] if not x.startswith("-")] or [q for q, c in REG.contracts.items() if not c.external]
+args = [x for x in sys.argv[2:] if not x.startswith('-')]
+quals = args or [q for q, c in REG.contracts.items() if not c.external]
+jobs = []
 for q in quals:
-    if q not in REG.contracts: 
+    if q not in REG.contracts:
         q = [x for x in REG.contracts if x.endswith(q)][0]
-    t = time.time()
-    out = driver.verify_and_discharge(q)
-    print('==', q, 'wall', out['wall_s'])
-    if out['error']: print(out['error'])
-    for i in out['infos']:
-        print('   variant=%s paths=%d feasible=%d cut=%d unsupported=%s' % (i['variant'], i['paths'], i['feasible_paths'], i['cut'], i['unsupported'][:3]))
-    can = [o for o in out['obligations'] if 'canary' in o['tags']]
-    out['obligations'] = [o for o in out['obligations'] if 'canary' not in o['tags']]
-    print('   canaries %d, wrongly proved %d' % (len(can), len([o for o in can if o['verdict']=='proved'])))
-    bad = [o for o in out['obligations'] if o['verdict'] != 'proved']
-    print('   obligations %d, not proved %d, max ms %.0f' % (len(out['obligations']), len(bad), max([o['ms'] for o in out['obligations']] or [0])))
-    for o in bad[:12]:
-        print('   !!', o['verdict'], o['name'], 'line', o['line'], (o['info'] or {}).get('trace'), str(o['model'])[:300] if '-v' in sys.argv else '')
+    for vi, v in enumerate(REG.contracts[q].variants()):
+        jobs.append((q, vi))
+def work(j):
+    return driver.verify_and_discharge(j[0], variant_index=j[1])
+with mp.get_context('fork').Pool(min(16, len(jobs))) as pool:
+    outs = pool.map(work, jobs, chunksize=1)
+byq = collections.OrderedDict()
+for (q, vi), out in zip(jobs, outs):
+    byq.setdefault(q, []).append(out)
+for q, lst in byq.items():
+    obl = [o for out in lst for o in out['obligations']]
+    can = [o for o in obl if 'canary' in o['tags']]
+    obl = [o for o in obl if 'canary' not in o['tags']]
+    print('==', q, 'wall', max(o['wall_s'] for o in lst))
+    for out in lst:
+        if out['error']: print(out['error'])
+        for i in out['infos']:
+            if i['unsupported'] or '-p' in sys.argv:
+                print('   variant=%s paths=%d feasible=%d cut=%d unsupported=%s' % (i['variant'], i['paths'], i['feasible_paths'], i['cut'], sorted(set(i['unsupported']))[:4]))
+    bad = [o for o in obl if o['verdict'] != 'proved']
+    print('   canaries %d (wrongly proved %d); obligations %d, not proved %d, max ms %.0f' % (len(can), len([o for o in can if o['verdict']=='proved']), len(obl), len(bad), max([o['ms'] for o in obl] or [0])))
+    groups = collections.OrderedDict()
+    for o in bad:
+        groups.setdefault((o['verdict'], o['name']), []).append(o)
+    for (v, n), os_ in list(groups.items())[:40]:
+        o = os_[0]
+        print('   !! %s x%d %s  line %s' % (v, len(os_), n, o['line']))
+        if '-v' in sys.argv:
+            print('        trace:', (o['info'] or {}).get('trace'))
+            if '-m' in sys.argv: print('        model:', str(o['model'])[:600])
     if '-t' in sys.argv:
-        for o in sorted(out['obligations'], key=lambda o: -o['ms'])[:15]:
+        for o in sorted(obl, key=lambda o: -o['ms'])[:10]:
             print('   %7.0f ms %s %s' % (o['ms'], o['name'], o['backend']))
